@@ -33,7 +33,7 @@ def ctlStep (c : Ctl) : Op π → Ctl
   | .setFiltering b => { c with filtering := b }
   | .addListener => c
   | .removeListener _ => c
-  | .drop => c
+  | .drop _ => c
 
 /-- what key `k` sees of one operation -/
 def view (c : Ctl) (op : Op π) (k : Key) : Option (KOp π) :=
@@ -42,8 +42,8 @@ def view (c : Ctl) (op : Op π) (k : Key) : Option (KOp π) :=
     if c.filtering && !(isValid c.filter ep p.tsi) then none
     else if k = ⟨ep, p.tsi⟩ then some (if p.close then .close c.clock p else .data c.clock p)
     else none
-  | .cleanup now => some (.cleanup c.clock now)
-  | .drop => some .drop
+  | .cleanup i => some (.cleanup c.clock i)
+  | .drop i => some (.drop c.clock i)
   | _ => none
 
 /-- key `k`'s own sub-sequence of a history -/
@@ -81,7 +81,7 @@ theorem ctl_step (M : Machine σ π Out) (s : State σ Out) (op : Op π) :
   | setFiltering b => rfl
   | addListener => rfl
   | removeListener id => rfl
-  | drop => rfl
+  | drop i => rfl
 
 /-- generic list fact behind cleanup and drop: on unique keys, selecting by value, mapping to records that
     remember their key, and then picking key `k` yields at most the one record made from `k`'s entry -/
@@ -133,11 +133,11 @@ theorem nodup_step (M : Machine σ π Out) (s : State σ Out) (op : Op π) (hn :
           · exact AL.nodup_keys_set _ _ _ hn
           · exact AL.nodup_keys_set _ _ _ hn
   | tick d => exact hn
-  | cleanup now =>
+  | cleanup i =>
     simp only [step, cleanup]
-    have h1 := AL.nodup_keys_filter s.table (fun e => !M.expired s.clock e.2.st) hn
-    have h2 := AL.keys_map_val (s.table.filter (fun e => !M.expired s.clock e.2.st))
-      (fun _ v => ({ v with st := (M.cleanup s.clock now v.st).1 } : Sess σ))
+    have h1 := AL.nodup_keys_filter s.table (fun e => !M.expired s.clock e.2) hn
+    have h2 := AL.keys_map_val (s.table.filter (fun e => !M.expired s.clock e.2))
+      (fun _ v => (M.cleanup s.clock i v).1)
     rw [h2]; exact h1
   | addListen ep tsi => simp only [step]; split <;> exact hn
   | removeListen ep tsi => exact hn
@@ -146,7 +146,7 @@ theorem nodup_step (M : Machine σ π Out) (s : State σ Out) (op : Op π) (hn :
   | setFiltering b => exact hn
   | addListener => exact hn
   | removeListener id => exact hn
-  | drop => simp [step, drop, AL.keys]
+  | drop i => simp [step, drop, AL.keys]
 
 theorem nodup_run (M : Machine σ π Out) (ops : List (Op π)) (s : State σ Out) (hn : (AL.keys s.table).Nodup) :
     (AL.keys (run M s ops).table).Nodup := by
@@ -163,11 +163,17 @@ private theorem filter_append_singleton_key (l : List Event) (e : Event) (k : Ke
   rw [List.filter_append]
   by_cases h : e.key = k <;> simp [h]
 
-private theorem filter_append_singleton_out (l : List (Key × Key × Out)) (o : Key × Key × Out) (k : Key) :
+private theorem filter_append_singleton_out (l : List (Key × Out)) (o : Key × Out) (k : Key) :
     (l ++ [o]).filter (fun x => decide (x.1 = k)) =
       l.filter (fun x => decide (x.1 = k)) ++ (if o.1 = k then [o] else []) := by
   rw [List.filter_append]
   by_cases h : o.1 = k <;> simp [h]
+
+private theorem filter_append_pair_out (l : List (Key × Out)) (o o' : Key × Out) (k : Key) :
+    (l ++ [o, o']).filter (fun x => decide (x.1 = k)) =
+      l.filter (fun x => decide (x.1 = k)) ++ ((if o.1 = k then [o] else []) ++ (if o'.1 = k then [o'] else [])) := by
+  rw [List.filter_append]
+  by_cases h : o.1 = k <;> by_cases h' : o'.1 = k <;> simp [h, h']
 
 /-- THE decomposition lemma: one step of the multi-session model, seen from key `k`, is one step of the
     single-session automaton on `k`'s view of the operation (and nothing if `k` has no view of it) -/
@@ -205,7 +211,8 @@ theorem localOf_step (M : Machine σ π Out) (s : State σ Out) (op : Op π) (k 
             | none => simp only [localOf, localStep, hg]
             | some se =>
               simp only [localOf, localStep, hg, AL.get_del, ↓reduceIte,
-                filter_append_singleton_key, filter_append_singleton_out, key_opened, key_closed]
+                filter_append_singleton_key, filter_append_pair_out, key_opened, key_closed, List.append_assoc,
+                List.singleton_append, List.cons_append, List.nil_append]
         · have hk' : ¬ (⟨ep, pkt.tsi⟩ : Key) = k := fun h => hk h.symm
           simp only [hk, ↓reduceIte]
           cases hc : pkt.close
@@ -222,26 +229,29 @@ theorem localOf_step (M : Machine σ π Out) (s : State σ Out) (op : Op π) (k 
             | none => rfl
             | some se =>
               simp only [localOf, AL.get_del, hk, ↓reduceIte, filter_append_singleton_key,
-                filter_append_singleton_out, key_opened, key_closed, hk', List.append_nil]
+                filter_append_pair_out, key_opened, key_closed, hk', List.append_nil]
   | tick d => rfl
-  | cleanup now =>
+  | cleanup i =>
     simp only [step, cleanup, view, State.ctl, localOf, List.filter_append]
-    have hget : AL.get ((s.table.filter (fun e => !M.expired s.clock e.2.st)).map
-          (fun e => (e.1, ({ e.2 with st := (M.cleanup s.clock now e.2.st).1 } : Sess σ)))) k
-        = ((AL.get s.table k).filter (fun v => !M.expired s.clock v.st)).map
-            (fun v => ({ v with st := (M.cleanup s.clock now v.st).1 } : Sess σ)) := by
-      rw [AL.get_map_val _ (fun _ v => ({ v with st := (M.cleanup s.clock now v.st).1 } : Sess σ)) k]
-      rw [AL.get_filter s.table (fun v => !M.expired s.clock v.st) k hn]
-    have hev := filter_map_key s.table (fun v => M.expired s.clock v.st) (fun k' _ => Event.closed k')
+    have hget : AL.get ((s.table.filter (fun e => !M.expired s.clock e.2)).map
+          (fun e => (e.1, (M.cleanup s.clock i e.2).1))) k
+        = ((AL.get s.table k).filter (fun v => !M.expired s.clock v)).map
+            (fun v => (M.cleanup s.clock i v).1) := by
+      rw [AL.get_map_val _ (fun _ v => (M.cleanup s.clock i v).1) k]
+      rw [AL.get_filter s.table (fun v => !M.expired s.clock v) k hn]
+    have hev := filter_map_key s.table (fun v => M.expired s.clock v) (fun k' _ => Event.closed k')
       Event.key (fun _ _ => rfl) k hn
-    have hout := filter_map_key s.table (fun v => !M.expired s.clock v.st)
-      (fun k' v => ((k', v.key, (M.cleanup s.clock now v.st).2) : Key × Key × Out))
+    have hfin := filter_map_key s.table (fun v => M.expired s.clock v)
+      (fun k' v => ((k', M.fini s.clock i v) : Key × Out))
       (fun o => o.1) (fun _ _ => rfl) k hn
-    rw [hget, hev, hout]
+    have hout := filter_map_key s.table (fun v => !M.expired s.clock v)
+      (fun k' v => ((k', (M.cleanup s.clock i v).2) : Key × Out))
+      (fun o => o.1) (fun _ _ => rfl) k hn
+    rw [hget, hev, hfin, hout]
     cases hg : AL.get s.table k with
     | none => simp [localStep, hg]
     | some se =>
-      cases he : M.expired s.clock se.st <;> simp [localStep, hg, he, Option.filter]
+      cases he : M.expired s.clock se <;> simp [localStep, hg, he, Option.filter]
   | addListen ep tsi => simp only [step, view]; split <;> rfl
   | removeListen ep tsi => rfl
   | addAll ep => simp only [step, view]; split <;> rfl
@@ -249,13 +259,16 @@ theorem localOf_step (M : Machine σ π Out) (s : State σ Out) (op : Op π) (k 
   | setFiltering b => rfl
   | addListener => rfl
   | removeListener id => rfl
-  | drop =>
-    simp only [step, drop, view, localOf, List.filter_append]
+  | drop i =>
+    simp only [step, drop, view, State.ctl, localOf, List.filter_append]
     have hev := filter_map_key s.table (fun _ => true) (fun k' _ => Event.closed k')
       Event.key (fun _ _ => rfl) k hn
+    have hfin := filter_map_key s.table (fun _ => true)
+      (fun k' v => ((k', M.fini s.clock i v) : Key × Out))
+      (fun o => o.1) (fun _ _ => rfl) k hn
     have hft : s.table.filter (fun _ => true) = s.table := by simp
-    rw [hft] at hev
-    rw [hev]
+    rw [hft] at hev hfin
+    rw [hev, hfin]
     cases hg : AL.get s.table k with
     | none => simp [localStep, hg]
     | some se => simp [localStep, hg]
@@ -299,19 +312,20 @@ theorem trace_filter_foreign (k : Key) (ops : List (Op π)) (c : Ctl) :
     · simp only [List.filter_cons, hf, Bool.not_false, ↓reduceIte, trace]
       rw [ih]
 
-/-- table invariant behind `callbacks_carry_key`: a session is stored under the key it was constructed with,
-    and every logged output carries the key it is filed under -/
-def KeyInv (s : State σ Out) : Prop :=
-  (∀ k se, AL.get s.table k = some se → se.key = k) ∧ (∀ o ∈ s.outs, o.2.1 = o.1)
+/-- table invariant behind `callbacks_carry_key`: the receiver stored under `k` holds `k` in its endpoint / tsi
+    fields, and every callback of every logged output carries the key the output is filed under -/
+def KeyInv (M : Machine σ π Out) (keyOf : σ → Key) (s : State σ Out) : Prop :=
+  (∀ k st, AL.get s.table k = some st → keyOf st = k) ∧ (∀ o ∈ s.outs, ∀ k' ∈ M.keys o.2, k' = o.1)
 
-theorem keyInv_new (f : Bool) : KeyInv (State.new f : State σ Out) := by
+theorem keyInv_new (M : Machine σ π Out) (keyOf : σ → Key) (f : Bool) : KeyInv M keyOf (State.new f : State σ Out) := by
   constructor
   · intro k se h; simp [State.new] at h
   · intro o h; simp [State.new] at h
 
-theorem keyInv_step (M : Machine σ π Out) (s : State σ Out) (op : Op π)
-    (hn : (AL.keys s.table).Nodup) (h : KeyInv s) : KeyInv (step M s op).1 := by
+theorem keyInv_step (M : Machine σ π Out) (keyOf : σ → Key) (hl : M.Lawful keyOf) (s : State σ Out) (op : Op π)
+    (hn : (AL.keys s.table).Nodup) (h : KeyInv M keyOf s) : KeyInv M keyOf (step M s op).1 := by
   obtain ⟨h1, h2⟩ := h
+  obtain ⟨li, lp, lc, kp, kc, kf⟩ := hl
   cases op with
   | push ep p =>
     cases p with
@@ -323,67 +337,75 @@ theorem keyInv_step (M : Machine σ π Out) (s : State σ Out) (op : Op π)
       · split
         · split
           · rename_i se hg
+            have hse := h1 _ _ hg
             constructor
             · intro k se' hget
               simp only [AL.get_del] at hget
               split at hget
               · simp at hget
               · exact h1 k se' hget
-            · intro o ho
-              simp only [List.mem_append, List.mem_singleton] at ho
-              rcases ho with ho | ho
-              · exact h2 o ho
-              · subst ho; exact h1 _ _ hg
+            · intro o ho k' hk'
+              simp only [List.mem_append, List.mem_cons, List.not_mem_nil, or_false] at ho
+              rcases ho with ho | ho | ho
+              · exact h2 o ho k' hk'
+              · subst ho; rw [kp _ _ _ k' hk']; exact hse
+              · subst ho; rw [kf _ _ _ k' hk', lp]; exact hse
           · exact ⟨h1, h2⟩
         · split
           · rename_i se hg
+            have hse := h1 _ _ hg
             constructor
             · intro k se' hget
               simp only [AL.get_set] at hget
               split at hget
               · rename_i hk; subst hk
                 simp only [Option.some.injEq] at hget; subst hget
-                exact h1 _ se hg
+                rw [lp]; exact hse
               · exact h1 k se' hget
-            · intro o ho
+            · intro o ho k' hk'
               simp only [List.mem_append, List.mem_singleton] at ho
               rcases ho with ho | ho
-              · exact h2 o ho
-              · subst ho; exact h1 _ _ hg
+              · exact h2 o ho k' hk'
+              · subst ho; rw [kp _ _ _ k' hk']; exact hse
           · constructor
             · intro k se' hget
               simp only [AL.get_set] at hget
               split at hget
               · rename_i hk; subst hk
                 simp only [Option.some.injEq] at hget; subst hget
-                rfl
+                rw [lp, li]
               · exact h1 k se' hget
-            · intro o ho
+            · intro o ho k' hk'
               simp only [List.mem_append, List.mem_singleton] at ho
               rcases ho with ho | ho
-              · exact h2 o ho
-              · subst ho; rfl
+              · exact h2 o ho k' hk'
+              · subst ho; rw [kp _ _ _ k' hk', li]
   | tick d => exact ⟨h1, h2⟩
-  | cleanup now =>
+  | cleanup i =>
     simp only [step, cleanup]
     constructor
     · intro k se' hget
-      rw [AL.get_map_val _ (fun _ v => ({ v with st := (M.cleanup s.clock now v.st).1 } : Sess σ)) k,
-        AL.get_filter s.table (fun v => !M.expired s.clock v.st) k hn] at hget
+      rw [AL.get_map_val _ (fun _ v => (M.cleanup s.clock i v).1) k,
+        AL.get_filter s.table (fun v => !M.expired s.clock v) k hn] at hget
       cases hg : AL.get s.table k with
       | none => simp [hg] at hget
       | some se =>
         simp only [hg, Option.filter] at hget
         split at hget
         · simp only [Option.map_some, Option.some.injEq] at hget
-          subst hget; exact h1 _ se hg
+          subst hget; rw [lc]; exact h1 _ se hg
         · simp at hget
-    · intro o ho
+    · intro o ho k' hk'
       simp only [List.mem_append, List.mem_map, List.mem_filter] at ho
-      rcases ho with ho | ⟨e, ⟨hmem, _⟩, heq⟩
-      · exact h2 o ho
+      rcases ho with (ho | ⟨e, ⟨hmem, _⟩, heq⟩) | ⟨e, ⟨hmem, _⟩, heq⟩
+      · exact h2 o ho k' hk'
       · subst heq
-        obtain ⟨k', v'⟩ := e
+        obtain ⟨k0, v0⟩ := e
+        rw [kf _ _ _ k' hk']
+        exact h1 _ _ (AL.get_of_mem _ _ _ hn hmem)
+      · subst heq
+        obtain ⟨k0, v0⟩ := e
+        rw [kc _ _ _ k' hk']
         exact h1 _ _ (AL.get_of_mem _ _ _ hn hmem)
   | addListen ep tsi => simp only [step]; split <;> exact ⟨h1, h2⟩
   | removeListen ep tsi => exact ⟨h1, h2⟩
@@ -392,15 +414,24 @@ theorem keyInv_step (M : Machine σ π Out) (s : State σ Out) (op : Op π)
   | setFiltering b => exact ⟨h1, h2⟩
   | addListener => exact ⟨h1, h2⟩
   | removeListener id => exact ⟨h1, h2⟩
-  | drop =>
+  | drop i =>
     simp only [step, drop]
-    exact ⟨by intro k se h; simp at h, h2⟩
+    constructor
+    · intro k se h; simp at h
+    · intro o ho k' hk'
+      simp only [List.mem_append, List.mem_map] at ho
+      rcases ho with ho | ⟨e, hmem, heq⟩
+      · exact h2 o ho k' hk'
+      · subst heq
+        obtain ⟨k0, v0⟩ := e
+        rw [kf _ _ _ k' hk']
+        exact h1 _ _ (AL.get_of_mem _ _ _ hn hmem)
 
-theorem keyInv_run (M : Machine σ π Out) (ops : List (Op π)) (s : State σ Out)
-    (hn : (AL.keys s.table).Nodup) (h : KeyInv s) : KeyInv (run M s ops) := by
+theorem keyInv_run (M : Machine σ π Out) (keyOf : σ → Key) (hl : M.Lawful keyOf) (ops : List (Op π)) (s : State σ Out)
+    (hn : (AL.keys s.table).Nodup) (h : KeyInv M keyOf s) : KeyInv M keyOf (run M s ops) := by
   induction ops generalizing s with
   | nil => exact h
-  | cons op r ih => exact ih _ (nodup_step M s op hn) (keyInv_step M s op hn h)
+  | cons op r ih => exact ih _ (nodup_step M s op hn) (keyInv_step M keyOf hl s op hn h)
 
 /-! ### alternation on the single-session automaton -/
 
@@ -427,14 +458,14 @@ theorem alt_localStep (M : Machine σ π Out) (k : Key) (l : Local σ Out) (ko :
     cases hs : l.sess with
     | none => simp [localStep, hs, h]
     | some se => simp [localStep, hs, altFrom_append, h, altFrom]
-  | cleanup t now =>
+  | cleanup t i =>
     cases hs : l.sess with
     | none => simp [localStep, hs, h]
     | some se =>
       cases he : M.expired t se.st
       · simp [localStep, hs, he, h]
       · simp [localStep, hs, he, altFrom_append, h, altFrom]
-  | drop =>
+  | drop t i =>
     cases hs : l.sess with
     | none => simp [localStep, hs, h]
     | some se => simp [localStep, hs, altFrom_append, h, altFrom]
